@@ -1,22 +1,37 @@
 PROP = dict(
-    coq=["Pipe/StopHarness.vo"],
+    coq=["Pipe/StopHarness.vo", "Pipe/WarcStopProofs.vo"],
     legs=[
         dict(driver="stop", quick=36, thorough=720, shard=12, noshrink=True,
              monitors=["stop_returns_without_crash", "no_open_warc_file_left", "warc_files_hold_complete_records_only",
-                       "all_stage_workers_returned"]),
+                       "all_stage_workers_returned", "every_acknowledged_exchange_on_disk_after_stop",
+                       "request_and_response_records_in_pairs"]),
     ],
     partial="'Bounded time' is a step bound in the model (an explicit measure) and a watchdog in the harness. The model covers the "
             "stage workers, the reactor run loop, the WARC files and the stop sequence after reactor.Freeze(); the watcher goroutines "
             "stopped first (disk / WARC-queue watchers, which call pause.Pause/Resume) are covered by C14's protocol theorems, the "
-            "queue source's own stop (lq.Stop) and the third-party WARC writer's drain are exercised by the matrix only. Environment "
-            "hypothesis: a fetch in progress ends (HTTP timeouts).",
+            "queue source's own stop (lq.Stop) is exercised by the matrix only. The WARC side of archiver.Stop() (workers with their "
+            "fetch goroutines, the client's dialer goroutines and WaitGroup, the WARCWriter channel, the recordWriter pool, "
+            "close/rename) is a second LTS (Pipe/WarcStopLts.v) transcribed from archiver.go and the third-party warc v0.8.76 "
+            "sources; what stays assumed about that library and the OS is listed under assumptions. Environment hypothesis: a "
+            "fetch in progress ends (HTTP timeouts).",
     assumptions=["a worker that is processing a seed finishes in finitely many steps (fetch timeouts; the label LWork is always enabled)",
-                 "the WARC writer drains its queue and renames its files when the client is closed (third-party recorder)",
+                 "third-party warc v0.8.76 behaves as its source reads (transcribed into Pipe/WarcStopLts.v): one gzip member per "
+                 "record, a batch is flushed before the next receive, bufio/OS writes of a record are not torn once flushed, "
+                 "rename keeps the file content; a connection is wrapped (WaitGroup.Add) only while its fetch goroutine is inside "
+                 "client.Do (net/http cancels a pending dial with its request); DNS 'resource' batches (sent and awaited by the "
+                 "fetch goroutine itself) are not modelled",
                  "Go's select may pick any ready case (a cancelled worker may still take a seed)"],
     level_text="Theorems for EVERY stop moment (any worker states, channel contents, pending pause tokens, worker and WARC-file counts) "
                "and every interleaving: each step decreases an explicit measure (bounded time, no livelock), some step is enabled until "
                "the stop sequence is complete (no deadlock), and the only stuck states are stopped ones with all workers returned and all "
-               "WARC files renamed; the pre-fix worker loop is refuted by a witness. Tied to the code by a matrix of real crawls stopped "
+               "WARC files renamed; the pre-fix worker loop is refuted by a witness. The WARC side of the stop sequence "
+               "has its own LTS and theorems for every state and interleaving: no send on a closed channel (no panic), an explicit "
+               "measure, stuck = final, every renamed file holds whole batches only and no *.open file is left, conservation of "
+               "records (disk + owed changes only by started fetches and discarded exchanges), no deadlock incl. unbuffered hand-over "
+               "and synchronous feedback waits; closing the client before the workers returned / without WaitGroup.Wait is refuted by "
+               "witness schedules reaching the panic. Tied to the code by a matrix of real crawls stopped "
                "through the real controler.Stop() at every hook point / while paused / at quiescence x proxy/direct, sync/async, limiter, "
-               "workers, pool, on-disk, seencheck on/off, with an independent WARC reader.",
+               "workers, pool, on-disk, seencheck on/off, with an independent WARC reader; both models are run from the abstracted "
+               "stop state of every crawl and compared with the observation (returned, no crash, workers gone, no .open, no bad file, "
+               "one file per writer, request/response pairs, every acknowledged exchange on disk).",
 )
